@@ -54,9 +54,26 @@ var xrs = []xrSpec{
 	{Name: "xr-auto-beta", Policy: "Automatic", Selector: map[string]string{"channel": "beta"}},
 }
 
+// pending is one violation found in a history; the first witness per key and history is kept
+// and handed to the kit in history order once all workers are done, so that the reported
+// witness does not depend on goroutine scheduling.
+type pending struct {
+	key, caseName, what string
+	witness             any
+}
+
+type collector struct {
+	first map[string]*pending
+	order []string
+	hits  map[string]int
+}
+
+func newCollector() *collector { return &collector{first: map[string]*pending{}, hits: map[string]int{}} }
+
 // exec is one execution: a world, its monitor and the actors' clients.
 type exec struct {
 	c     *kit.Ctx
+	coll  *collector
 	h     *history
 	w     *sim.World
 	m     *monitor
@@ -70,8 +87,8 @@ type exec struct {
 	requeues   int
 }
 
-func newExec(c *kit.Ctx, h *history, w *sim.World, m *monitor) *exec {
-	e := &exec{c: c, h: h, w: w, m: m}
+func newExec(c *kit.Ctx, coll *collector, h *history, w *sim.World, m *monitor) *exec {
+	e := &exec{c: c, coll: coll, h: h, w: w, m: m}
 	w.AddHook(m.hook)
 	e.rc = w.Client(ctrlActor)
 	e.user = w.Client("user")
@@ -80,7 +97,7 @@ func newExec(c *kit.Ctx, h *history, w *sim.World, m *monitor) *exec {
 }
 
 func (e *exec) fork() *exec {
-	n := newExec(e.c, e.h, e.w.Clone(), e.m.clone())
+	n := newExec(e.c, e.coll, e.h, e.w.Clone(), e.m.clone())
 	n.trace = append(n.trace, e.trace...)
 	return n
 }
@@ -484,7 +501,14 @@ type snapshot struct {
 }
 
 func (e *exec) report(caseName string, extra map[string]any) {
+	if len(e.m.viol) > 0 {
+		e.c.Count("executions_with_an_alarm", 1)
+	}
 	for _, v := range e.m.viol {
+		e.coll.hits[v.key]++
+		if e.coll.first[v.key] != nil {
+			continue
+		}
 		wit := map[string]any{"history": e.h, "steps": e.trace}
 		for k, x := range extra {
 			wit[k] = x
@@ -498,8 +522,9 @@ func (e *exec) report(caseName string, extra map[string]any) {
 		if len(evs) > 150 {
 			evs = evs[len(evs)-150:]
 		}
-		wit["events"] = evs
-		e.c.Violate(v.key, caseName, v.what, wit)
+		wit["events_of_this_execution"] = evs
+		e.coll.first[v.key] = &pending{v.key, caseName, v.what, wit}
+		e.coll.order = append(e.coll.order, v.key)
 	}
 }
 
@@ -510,12 +535,12 @@ func (e *exec) account() {
 	e.c.Count("invariant_evaluations", int64(e.m.checks))
 }
 
-func runHistory(c *kit.Ctx, h history, idx int) {
+func runHistory(c *kit.Ctx, coll *collector, h history, idx int) {
 	hfp := kit.Hash(kit.JSON(h))
 	revert := h.hasRevert()
 	// the fetcher's own calls are fault-enumerated for the fixed histories and every third random one
 	xrFaults := idx < len(baseHistories()) || idx%3 == 0
-	root := newExec(c, &h, buildWorld(&h, uint64(c.Seed)*100000+uint64(idx)), newMonitor(&h))
+	root := newExec(c, coll, &h, buildWorld(&h, uint64(c.Seed)*100000+uint64(idx)), newMonitor(&h))
 
 	// fault-free run, snapshotting before every reconcile
 	var snaps []snapshot
@@ -640,6 +665,8 @@ func main() {
 	if workers < 2 {
 		workers = 2
 	}
+	colls := make([]*collector, len(hs))
+	panics := make([]error, len(hs))
 	var wg sync.WaitGroup
 	ch := make(chan int)
 	for wk := 0; wk < workers; wk++ {
@@ -651,9 +678,8 @@ func main() {
 				if c.Only != "" && c.Only != h.Name && !strings.HasPrefix(c.Only, h.Name+"/") {
 					continue
 				}
-				if err := kit.Try(func() { runHistory(c, h, i) }); err != nil {
-					c.Violate("harness-panic", h.Name, err.Error(), map[string]any{"history": h})
-				}
+				colls[i] = newCollector()
+				panics[i] = kit.Try(func() { runHistory(c, colls[i], h, i) })
 				c.Count("histories", 1)
 				if h.hasRevert() {
 					c.Count("histories_with_revert", 1)
@@ -671,6 +697,20 @@ func main() {
 	}
 	close(ch)
 	wg.Wait()
+	for i, coll := range colls {
+		if panics[i] != nil {
+			c.Violate("harness-panic", hs[i].Name, panics[i].Error(), map[string]any{"history": hs[i]})
+		}
+		if coll == nil {
+			continue
+		}
+		for _, k := range coll.order {
+			p := coll.first[k]
+			for n := 0; n < coll.hits[k]; n++ { // keeps the kit's per-key hit counters meaningful
+				c.Violate(p.key, p.caseName, p.what, p.witness)
+			}
+		}
+	}
 	c.Exhaustive(false)
 	var names []string
 	for _, h := range hs[:len(baseHistories())] {
